@@ -179,8 +179,11 @@ class Lab:
                 b = terms.subst(pb, m)
                 arg = a
                 if a[0] == 'w':
-                    if a[2] is None or a[1] == CON:
+                    if a[2] is None:
                         continue
+                    # `out B` and `in B` are only well-formed when B itself is
+                    # within the declared upper bound (javac / kotlinc reject
+                    # a lower bound that is not below the parameter's bound)
                     arg = a[2]
                 if terms.refsub3(arg, b, self.T) is not True:
                     return False
